@@ -318,6 +318,10 @@ pub struct JoinCase {
 	pub delete_now: bool,
 	/// further join tasks doing the same (each with its own waker and its own clones)
 	pub tasks: u8,
+	/// odd: one more waiter, a tokio task that awaits two clones of every ticket through
+	/// `futures::stream::FuturesUnordered` (one task, a waker of its own for every inner future)
+	#[serde(default)]
+	pub combinator: u8,
 }
 
 pub fn run_join(c: &JoinCase) -> Outcome {
@@ -441,6 +445,28 @@ pub fn run_join(c: &JoinCase) -> Outcome {
 			}
 		}));
 	}
+	let combo_polled = Arc::new(AtomicBool::new(c.combinator % 2 == 0));
+	let combo = (c.combinator % 2 == 1).then(|| {
+		use futures::StreamExt;
+		let ts: Vec<_> = tickets.iter().flat_map(|t| [t.clone(), t.clone()]).collect();
+		let polled = combo_polled.clone();
+		o.label("combinator-waiter");
+		rt.spawn(async move {
+			let mut fu: futures::stream::FuturesUnordered<_> = ts.into_iter().collect();
+			let first = futures::poll!(fu.next());
+			polled.store(true, Ordering::SeqCst);
+			if matches!(first, Poll::Ready(None)) {
+				return;
+			}
+			while fu.next().await.is_some() {}
+		})
+	});
+	{
+		let t = Instant::now();
+		while !combo_polled.load(Ordering::SeqCst) && t.elapsed() < Duration::from_secs(5) {
+			std::thread::sleep(Duration::from_micros(200));
+		}
+	}
 	let wait_for = |ctr: &AtomicUsize| {
 		let t = Instant::now();
 		while ctr.load(Ordering::SeqCst) < ntasks && t.elapsed() < Duration::from_secs(5) {
@@ -470,10 +496,22 @@ pub fn run_join(c: &JoinCase) -> Outcome {
 		}
 	}
 	let task_done = rt.block_on(async { tokio::time::timeout(Duration::from_secs(3), task).await.is_ok() });
+	// the combinator task: every ticket resolves once the job has ended, so the stream must drain
+	let combo_done = combo.as_ref().map_or(true, |h| {
+		let t = Instant::now();
+		while !h.is_finished() && t.elapsed() < Duration::from_millis(1500) {
+			std::thread::sleep(Duration::from_millis(2));
+		}
+		h.is_finished()
+	});
 	rt.shutdown_timeout(Duration::from_millis(200));
 	super::c08::kill_all(&logs.pids());
 	if !p1 || !p2 {
 		o.fail("harness:join-phases", format!("the join tasks did not reach their first / second pass (first {p1}, second {p2}): the completing controls did not complete within 5 s of the gate opening\ncase {c:?}"));
+		return o;
+	}
+	if !combo_done && task_done {
+		o.fail("joined-tickets:combinator-never-finished", format!("a tokio task awaiting two clones of every ticket through FuturesUnordered had not finished 1.5 s after the job task ended: some inner future was never woken\ncase {c:?} (kinds {kinds:?})"));
 		return o;
 	}
 	if unwoken > 0 {
@@ -861,12 +899,12 @@ pub fn check(e: &Engine) {
 			threads: 8,
 			confirm: 1,
 			max_shrink_iters: 8,
-			rule: "1-3 hand-written join tasks (OS threads with their own waker, polling only when woken) each await clones of 2-5 tickets of one job running a real process that ignores signals: closures and signals (complete when a gate opens after the first pass), to_wait and a graceful stop with a 20 s grace period (outstanding); the pending tickets are polled in a generated fixed order with the task's one waker; then the job ends (last handle dropped, or delete_now): every ticket must have resolved and the task must have been woken within 1.5 s; non-trivial = at least one completing and one outstanding ticket",
+			rule: "1-3 hand-written join tasks (OS threads with their own waker, polling only when woken) each await clones of 2-5 tickets of one job running a real process that ignores signals: closures and signals (complete when a gate opens after the first pass), to_wait and a graceful stop with a 20 s grace period (outstanding); the pending tickets are polled in a generated fixed order with the task's one waker; then the job ends (last handle dropped, or delete_now): every ticket must have resolved and the task must have been woken within 1.5 s; in half of the cases one more waiter is a tokio task that awaits two clones of every ticket through FuturesUnordered (one task, one waker per inner future) and must finish too; non-trivial = at least one completing and one outstanding ticket",
 			confirm_any: &[],
 		},
 		&|| {
-			(proptest::collection::vec(0u8..4, 2..6), proptest::collection::vec(0u8..6, 5), any::<bool>(), 1u8..4)
-				.prop_map(|(kinds, order, delete_now, tasks)| JoinCase { kinds, order, delete_now, tasks })
+			(proptest::collection::vec(0u8..4, 2..6), proptest::collection::vec(0u8..6, 5), any::<bool>(), 1u8..4, 0u8..2)
+				.prop_map(|(kinds, order, delete_now, tasks, combinator)| JoinCase { kinds, order, delete_now, tasks, combinator })
 				.boxed()
 		},
 		&run_join,
